@@ -2514,7 +2514,9 @@ def w_print( ctx ):
             # what is printed is formatted for EVERY value a tag can hold - numbers, booleans, texts - and every key: the argument of each print
             # is evaluated on 5 values x 3 keys; a conversion that raises for one of them ( '%g' % 'text' ) fails the read or the write it decorates
             if f.name in ( '__setitem__', '__getitem__' ):
-                VALUE = ( [ a.arg for a in f.args.args ] + [ 'value' ] )[2] if f.name == '__setitem__' else 'value'
+                got_ = [ t_.id for a_ in f.body if isinstance( a_, ast.Assign ) and any( isinstance( c_, ast.Call ) and isinstance( c_.func, ast.Attribute ) and c_.func.attr == '__getitem__' for c_ in ast.walk( a_.value ))
+                         for t_ in a_.targets if isinstance( t_, ast.Name ) ]
+                VALUE = ( [ a.arg for a in f.args.args ] + [ 'value' ] )[2] if f.name == '__setitem__' else ( got_ or [ 'value' ] )[0]
                 KEY = f.args.args[1].arg
                 for pc in [ x for x in ast.walk( f ) if isinstance( x, ast.Call ) and call_name( x ) == 'print' and x.args ]:
                     failed = None
